@@ -137,6 +137,9 @@ def match_known(case, fail, known):
                 return k
             if k.get('id') == 'K26' and cl.startswith('processor-raises:ValueError') and 'max() iterable argument is empty' in det:
                 return k
+        if k.get('id') == 'K33' and (fail.get('clause') or '').startswith('processor-raises:ValueError') and \
+                'not feasible to begin with' in (fail.get('detail') or '') and dsgcase.orphan_required_connector(case):
+            return k
         if k.get('id') == 'K23' and fail.get('clause') in ('architectures-differ', 'n-valid-designs-differs', 'two-rows-one-architecture') and _group_with_open_member(case):
             return k
     return dsgcase.match_known({k: v for k, v in case.items() if k != 'conn'}, fail, known)
